@@ -615,12 +615,16 @@ where
         let sequence = self.inner.sequence.fetch_add(1, Ordering::Relaxed);
         #[cfg(foyer_verif)]
         foyer_common::verif::event("enqueue", piece.hash(), sequence);
+        #[cfg(foyer_verif)]
+        let verif_hash = piece.hash();
 
         self.inner.flushers[piece.hash() as usize % self.inner.flushers.len()].submit(Submission::CacheEntry {
             piece,
             estimated_size,
             sequence,
         });
+        #[cfg(foyer_verif)]
+        foyer_common::verif::event("submitted", verif_hash, sequence);
     }
 
     fn load(&self, hash: u64) -> impl Future<Output = Result<Load<K, V, P>>> + Send + 'static {
